@@ -218,6 +218,13 @@ fn configs(tier: Tier, seed: u64) -> Vec<EnumCase> {
         }
         v.push(EnumCase::collect(&format!("seats-{}", seats), flop, ranges));
     }
+    // a seat without any hand (collected, and parsed from tokens that are not tokens): nobody is dealt in, whatever the order
+    {
+        let flop = textured_flop(&mut rng, 3);
+        let a = random_range(&mut rng, 6, WeightMode::Family);
+        let b = random_range(&mut rng, 9, WeightMode::Family);
+        v.push(EnumCase::collect("empty-seat", flop, vec![a, vec![], b]));
+    }
     // ranges written as notation, naming some combos in both card orders and on top of rank-pair tokens
     let f = |t: &str| {
         let c = crate::conv::parse_cards_text(t).unwrap();
@@ -225,6 +232,7 @@ fn configs(tier: Tier, seed: u64) -> Vec<EnumCase> {
     };
     v.push(EnumCase::parsed("notation-both-orders-1", f("Qs8d2h"), &["KK+,AhAs:0.5", "QJs,Td9d,9dTd:0.25"]));
     v.push(EnumCase::parsed("notation-both-orders-2", f("7c4d2h"), &["AsKs,KsAs:0.5,77", "7h7d,8c8s,8s8c:0.75,T9s"]));
+    v.push(EnumCase::parsed("notation-unparsable-seat", f("Ts6d2h"), &["QQ,JTs", "KAs+,xx", "A5s,99"]));
     v
 }
 
